@@ -32,6 +32,8 @@ def mc_register(tag, declset, slots, invariants, properties, workers=8, timeout=
     acts = {}
     for m in re.finditer(r"^<(\w+) line \d+, col \d+ to line \d+, col \d+ of module \w+(?: \([\d ]+\))?>: (\d+):(\d+)", r["out"], re.M):
         acts[m.group(1)] = {"distinct": int(m.group(2)), "taken": int(m.group(3))}
+    if declset != "DupDecls":
+        idle_ok = tuple(idle_ok) + ("NxGetDup", "NxWithDup")          # only Q-dup style declarations enable them
     never = [a for a, c in acts.items() if c["taken"] == 0 and a != "Init" and a not in idle_ok]
     if never:
         raise ToolError("vacuity: actions never taken in MC run %s: %s" % (tag, never))
@@ -736,7 +738,8 @@ def mc_builder(tag):
 
 
 def c16(pid, tier, seed, t0):
-    mc = [mc_register("C16", "SmallDecls", ["a", "b"], ["TypeOK", "UpperBitsZero"], [])]
+    mc = [mc_register("C16", "SmallDecls", ["a", "b"], ["TypeOK", "UpperBitsZero"], []),
+          mc_register("C16d", "DupDecls", ["a", "b"], ["TypeOK", "UpperBitsZero", "LastWriteWins"], [], idle_ok=("NxDefault", "Default", "NxOOB", "OOB"))]
     _, star = vlib.corpus("star")
     _, arr = vlib.corpus("arr")
     _, nc = vlib.corpus("nc")
